@@ -141,6 +141,19 @@ theorem ctl_inv (fs ch app : Int) (s0 : EncSt) (hc : encCreate fs ch app true = 
   cases hc
   exact encRun_inv (encInit_inv hargs) evs hok
 
+/-- **ctl_inv**, stronger clause: an `opus_encode` call never changes a user setting — only a ctl
+    can (true of the code since the repair 34e4f763 of the multi-frame `force_channels = 1` store).
+    Both views of an encode call: the monitored adopt view of `ctl_inv`, and the `step` model. -/
+theorem encode_never_changes_settings :
+    (∀ (s : EncSt) (f b ret : Int) (o : EncObs), encodeContract s f b ret o = none →
+        settingsOf (encAdopt s o) = settingsOf s) ∧
+    (∀ (s : DSt) (o : Oracle) (f b : Int),
+        let s' := (step s o f b).1
+        s'.fs = s.fs ∧ s'.channels = s.channels ∧ s'.application = s.application ∧ s'.userBitrate = s.userBitrate ∧
+        s'.useVbr = s.useVbr ∧ s'.forceChannels = s.forceChannels ∧ s'.maxBandwidth = s.maxBandwidth ∧
+        s'.userBandwidth = s.userBandwidth ∧ s'.userForcedMode = s.userForcedMode ∧ s'.lfe = s.lfe) :=
+  ⟨fun _ _ _ _ _ h => encAdopt_settings h, step_settings⟩
+
 /-- **ctl_inv** (decoder): gain, complexity and phase-inversion settings stay in range under any
     request and any decode call. -/
 theorem ctl_inv_decoder (fs ch : Int) (h : decArgsOk fs ch = true) :
